@@ -6,7 +6,7 @@ every seed (git checkout -- .)."""
 import glob, json, os, re, subprocess, sys
 ROOT = os.path.dirname(os.path.dirname(os.path.abspath(__file__)))
 # other properties whose check is expected to notice a seed aimed elsewhere (shared code)
-EXTRA = {"C03-a": ["C10"], "C18-a": ["C08"], "C13-b": ["C15"], "C13-m": ["C15"], "C15-a": ["C15"], "C20-c": ["C15"], "C20-b": ["C15"]}
+EXTRA = {"C03-a": ["C10"], "C18-a": ["C08"], "C13-b": ["C15"], "C15-a": ["C15"], "C20-c": ["C15"], "C20-b": ["C15"]}
 
 
 def sh(cmd, cwd=None):
